@@ -76,3 +76,35 @@ Print Assumptions C09_exempt_codes_are_the_source.
 Theorem C09_stage_order_is_the_source : src_dec_stages = model_dec_stages /\ src_enc_stages = model_enc_stages.
 Proof. exact stages_are_source. Qed.
 Print Assumptions C09_stage_order_is_the_source.
+
+(* ---- source-level tie of the control structure (tools/facts/cfun.py -> gen/GenCredFun.v: dec_process_msg and
+        enc_process_msg TRANSLATED from the C text on every run; CredPipe.v): the order of the checks (authorization
+        before the time window before the replay cache), that a failing stage ends the chain, and the guard of
+        m_msg_reset - every failure except expired / rewound / replayed on decode, every failure on encode ---- *)
+From Coq Require Import ZArith.
+From MV Require Import CredFun CredPipe.
+From MV.gen Require Import GenCredFun.
+Theorem C09_source_decode_control : forall (S : Type) (ops : pipe_ops S) (s : S),
+  src_dec_process_msg ops s = pipe_control ops dec_stage_order soft_err true s.
+Proof. exact src_dec_process_msg_is_pipe. Qed.
+Print Assumptions C09_source_decode_control.
+Theorem C09_source_encode_control : forall (S : Type) (ops : pipe_ops S) (s : S),
+  src_enc_process_msg ops s = pipe_control ops enc_stage_order (fun _ => false) false s.
+Proof. exact src_enc_process_msg_is_pipe. Qed.
+Print Assumptions C09_source_encode_control.
+(* over abstract stage outcomes: which stages ran, and the reply is sanitised exactly for a failure whose code is not
+   expired / rewound / replayed *)
+Theorem C09_source_decode_outcomes : forall (fail : string -> option N) (send_ok : bool),
+  src_dec_process_msg (trace_ops fail send_ok) t0 = outcomes dec_stage_order soft_err true fail send_ok.
+Proof. exact src_dec_outcomes. Qed.
+Print Assumptions C09_source_decode_outcomes.
+Theorem C09_source_pipeline_is_model :
+  forall (hmac : N -> bytes -> bytes -> bytes) (sha1 : bytes -> bytes) (blk_dec : N -> bytes -> bytes -> bytes)
+         (zdecomp : N -> bytes -> N -> option bytes) (cf : conf) (mem : N -> N -> bool) (pu pg now : N)
+         (rs : CredModel.rstate) (m : msg) (send_ok : bool),
+  let '(rc, s) := src_dec_process_msg (dec_ops hmac sha1 blk_dec zdecomp cf mem pu pg now send_ok) (dinit m rs) in
+  let '(r, rs', k) := dec_process hmac sha1 blk_dec zdecomp cf mem rs m pu pg now in
+  d_msg s = r /\ d_rs s = (if send_ok then rs' else dec_rollback rs' k) /\
+  rc = (if send_ok then match k with Some _ => 0 | None => -1 end else -1)%Z.
+Proof. exact dec_process_is_source. Qed.
+Print Assumptions C09_source_pipeline_is_model.
